@@ -49,6 +49,44 @@ def status_line_ok(spec, line):
     return True
 
 
+# ---------------------------------------------------------------- filling-in histories
+
+def effective(r):
+    """Recipe with the earlier steps of the filling-in history folded in.
+
+    r['pre'] = [['text'|'data'|'media', value-or-None] | ['render'], ...] runs before the final assignments.
+    Only the LAST assignment of each attribute counts; calling the public render_body() in between is an
+    observation and changes nothing about what must be sent.
+    """
+    pre = r.get('pre')
+    if not pre:
+        return r
+    last = {'text': None, 'data': None, 'media': None}
+    for op in pre:
+        if op[0] in last:
+            last[op[0]] = op[1]
+    e = dict(r)
+    if r.get('text') is None:
+        e['text'] = last['text']
+    if r.get('data') is None:
+        e['data'] = last['data']
+    if r.get('media', ['unset'])[0] != 'set':
+        e['media'] = ['unset'] if last['media'] is None else ['set', last['media']]
+    return e
+
+
+def media_rendered_in_history(r):
+    """Did some render_body() call of the history serialize the media (classifier helper)?"""
+    cur = {'text': None, 'data': None, 'media': None}
+    for op in r.get('pre') or []:
+        if op[0] == 'render':
+            if cur['text'] is None and cur['data'] is None and cur['media'] is not None:
+                return True
+        else:
+            cur[op[0]] = op[1]
+    return False
+
+
 # ---------------------------------------------------------------- body
 
 def selected_source(r):
